@@ -3,7 +3,11 @@
 (/verif/seeded/<id>/patch.diff applied to /repo, reverted afterwards) and records the
 outcome in meta.json.  usage: seedmeta.py [name ...]"""
 import json, os, subprocess, sys, re
-root = '/verif/seeded'
+VERIF = os.path.dirname(os.path.dirname(os.path.abspath(__file__)))
+REPO = os.environ.get('VERIF_REPO', '/repo')
+os.environ['VERIF_REPO'] = REPO
+os.environ['VERIF_DIR'] = VERIF
+root = VERIF + '/seeded'
 names = sys.argv[1:] or sorted(os.listdir(root))
 for n in names:
     d = os.path.join(root, n)
@@ -12,15 +16,15 @@ for n in names:
     prop = n.split('-')[0]
     mp = os.path.join(d, 'meta.json')
     meta = json.load(open(mp)) if os.path.exists(mp) else {}
-    if subprocess.run(['git', '-C', '/repo', 'status', '--porcelain', '--untracked-files=no'], capture_output=True, text=True).stdout.strip():
+    if subprocess.run(['git', '-C', REPO, 'status', '--porcelain', '--untracked-files=no'], capture_output=True, text=True).stdout.strip():
         print('refusing: /repo dirty'); sys.exit(2)
-    if subprocess.run(['git', '-C', '/repo', 'apply', os.path.join(d, 'patch.diff')]).returncode != 0:
+    if subprocess.run(['git', '-C', REPO, 'apply', os.path.join(d, 'patch.diff')]).returncode != 0:
         meta['check_outcome'] = 'patch does not apply to the current /repo'
     else:
         try:
-            r = subprocess.run(['/verif/bin/vcheck', 'check', '-prop', prop, '-no-evidence'], capture_output=True, text=True, cwd='/verif')
+            r = subprocess.run([VERIF + '/bin/vcheck', 'check', '-prop', prop, '-no-evidence'], capture_output=True, text=True, cwd=VERIF)
         finally:
-            subprocess.run(['git', '-C', '/repo', 'checkout', '--', '.'])
+            subprocess.run(['git', '-C', REPO, 'checkout', '--', '.'])
         failed = [re.sub(r' clause=.*', '', l)[len('FAILED '):] for l in r.stdout.splitlines() if l.startswith('FAILED')]
         meta['check_outcome'] = 'caught' if r.returncode == 1 else ('missed' if r.returncode == 0 else 'engine-error')
         meta['failed_obligations'] = failed[:12]
